@@ -68,6 +68,13 @@ package util
 //@   ensures err == nil ==> f != nil
 
 //@ ufunc trunc_string(s string, n int) string
+//@ ufunc valid_filename(s string) string
+//@ fn ValidFilename(str) (r)
+//@   props C12
+//@   trusted
+//@   noeffect
+//@   ensures r == valid_filename(str)
+
 //@ fn TruncString(val, max) (r)
 //@   props C06
 //@   requires max >= 0
